@@ -95,6 +95,7 @@ func makeCert(dir string) (*tlsFiles, error) {
 type step struct {
 	resp   *gpb.SubscribeResponse
 	brk    bool
+	eof    bool // the failing session ends with a clean end of stream instead of an error
 	phase2 bool // after the clients' subscription point
 	delay  time.Duration
 }
@@ -165,6 +166,9 @@ func (f *fakeTarget) Subscribe(stream gpb.GNMI_SubscribeServer) error {
 		if st.brk {
 			// the session ends: the collector sees a Recv error, resets the target
 			// and, after its back-off, opens the next session
+			if st.eof {
+				return nil
+			}
 			return status.Error(codes.Unavailable, "scripted stream failure")
 		}
 		if err := stream.Send(st.resp); err != nil {
@@ -578,6 +582,10 @@ func runCli(ctx context.Context, bin, dir, addr string, idx int, s CliSpec, styl
 	case "flags":
 		o.Args = CliArgs{Target: s.Target, Queries: []string{q}, QType: "once"}
 		args = append(args, "-t", s.Target, "-q", q, "-qt", "once")
+	case "flags-default":
+		// no -qt: the flag's default ("once") applies; long-form flags
+		o.Args = CliArgs{Target: s.Target, Queries: []string{q}, QType: "once"}
+		args = append(args, "-target", s.Target, "-query", q, "-display_type", "group")
 	case "proto":
 		txt := protoText(s)
 		protos[txt] = idx
@@ -616,6 +624,15 @@ func runCli(ctx context.Context, bin, dir, addr string, idx int, s CliSpec, styl
 	o.OK = true
 	o.Leaves = leaves
 	return o
+}
+
+// cliStyles: the three invocation styles, plus for the first query the
+// flags style relying on the default query type.
+func cliStyles(i int) []string {
+	if i == 0 {
+		return []string{"flags", "proto", "file", "flags-default"}
+	}
+	return []string{"flags", "proto", "file"}
 }
 
 func lastLine(s string) string {
@@ -691,7 +708,7 @@ func runScenario(e *env, id int, c *Case) (obs *Obs, herr error) {
 			}
 			if o.Break {
 				breaks++
-				script = append(script, step{brk: true, phase2: sub})
+				script = append(script, step{brk: true, eof: breaks%2 == 0, phase2: sub})
 			} else {
 				script = append(script, step{resp: respOf(o.N), phase2: sub, delay: time.Duration(o.DelayUS) * time.Microsecond})
 			}
@@ -820,7 +837,7 @@ func runScenario(e *env, id int, c *Case) (obs *Obs, herr error) {
 			obs.Clients = append(obs.Clients, ViewObs{Kind: "down"})
 		}
 		for i, s := range c.Cli {
-			for _, st := range []string{"flags", "proto", "file"} {
+			for _, st := range cliStyles(i) {
 				obs.Cli = append(obs.Cli, runCli(ctx, e.cliBin, dir, addr, i, s, st, obs.Files, obs.Protos))
 			}
 		}
@@ -862,10 +879,22 @@ func runScenario(e *env, id int, c *Case) (obs *Obs, herr error) {
 	}
 	time.Sleep(150 * time.Millisecond)
 
-	// clients subscribe
+	// clients subscribe; in a "live" scenario the targets are already sending
+	// their later messages, so the snapshot walk overlaps with streamed updates
+	released := false
+	if c.Live {
+		for _, nm := range names {
+			close(targets[nm].go2)
+		}
+		released = true
+		time.Sleep(time.Duration(c.LiveDelayMS) * time.Millisecond)
+	}
 	clients := make([]*libClient, len(c.Clients))
 	for i, q := range c.Clients {
 		clients[i] = startClient(ctx, addr, q)
+		if c.Live {
+			time.Sleep(3 * time.Millisecond)
+		}
 	}
 	// wait until every client is synced or has ended
 	ended := make([]bool, len(clients))
@@ -880,8 +909,10 @@ func runScenario(e *env, id int, c *Case) (obs *Obs, herr error) {
 	}
 
 	// phase 2
-	for _, nm := range names {
-		close(targets[nm].go2)
+	if !released {
+		for _, nm := range names {
+			close(targets[nm].go2)
+		}
 	}
 	if contacted() {
 		waitAll(func(f *fakeTarget) chan struct{} { return f.sentAll }, 5*time.Second+slack)
